@@ -1,7 +1,7 @@
 (* C06 - include-except removes exactly the excluded entries and rewrites only suffixes. Statements only. *)
 From Coq Require Import String Permutation.
 From Verif Require Import Base.Str Base.Lines Base.Outcome Regex.Re Regex.Equiv Model.Patterns Model.ParseLine Model.Passes Model.CmdLine Model.Parser Model.Assembler Model.Generate.
-From Verif Require Import Proofs.IncludeExceptProofs.
+From Verif Require Import Proofs.IncludeExceptProofs Proofs.IncludeInlineProofs Proofs.ScanUnlinesProofs Proofs.IncludeExceptInlineProofs.
 From Verif Require Import Proofs.EquivSound Proofs.PassesProofs Proofs.CmdLineProofs Proofs.ParserProofs Proofs.AssemblerProofs.
 From Verif Require Tie.Pin_lits_regex_parser_include_except_builder_replaceSuffixes Tie.Pin_lits_regex_parser_include_except_builder_removeExclusions Tie.Pin_lits_regex_parser_include_except_builder_buildinclusionLineMap Tie.Pin_lits_regex_parser_include_except_builder_stringFromInclusionLines Tie.Pin_lits_regex_parser_include_except_builder_buildIncludeExceptString Tie.Pin_lits_regex_parser_include_except_builder_buildIncludeString Tie.Pin_lits_regex_parser_include_except_builder_inclusionLineSlice_Less Tie.Pin_lits_regex_parser_parser_buildPairMap Tie.Pin_lits_regex_parser_parser_splitArgs Tie.Pin_IncludeExceptRegex_src Tie.Pin_IncludeRegex_src.
 Open Scope N_scope.
@@ -74,3 +74,31 @@ Theorem C06_nothing_else_dropped :
   forall excl ls l, In l ls -> ~ In l excl -> In l (filter (not_excluded excl) (keep_last ls)).
 Proof. exact nothing_else_dropped. Qed.
 Print Assumptions C06_nothing_else_dropped.
+
+(* THE WHOLE PARSER AND THE WHOLE COMMAND, for word-list files: for every including file, every
+   position of the directive, every includer state, every iteration order of the maps: if the
+   include file and the exclude files are found and consist of entries, comments and blank lines
+   (clean lines), generate of the file with `include-except F X1 .. Xn` IS generate of the file
+   with, in the directive's place, the entries of F that are not entries of any Xi, each once, in
+   the order of their last occurrence.  (Suffix replacement pairs on the directive, include files
+   with own definitions / prefixes / suffixes: the lemmas above and the by-hand oracle per case.) *)
+Theorem C06_include_except_wordlists_is_typing_the_surviving_lines_partial :
+  forall ordp ords ords2 ordi limit fs join cfg limit_asm pre line post pl cF cXs contents1 contents2,
+  (forall m, Permutation m (ordi m)) ->
+  parse_line ordp (trim_left is_blank line) = Ok pl -> pl_type pl = LIncludeExcept -> pl_pairs pl = None ->
+  good_file ordp limit fs (pl_file pl) cF -> Forall2 (good_file ordp limit fs) (pl_excludes pl) cXs ->
+  scan_lines limit contents1 = pre ++ [line] ++ post ->
+  scan_lines limit contents2 =
+    pre ++ filter (not_excluded (excluded_lines ordp limit cXs)) (keep_last (text_lines ordp (scan_lines limit cF))) ++ post ->
+  generate join cfg ordp ords ords2 ordi limit limit_asm fs contents1 =
+  generate join cfg ordp ords ords2 ordi limit limit_asm fs contents2.
+Proof. intros. eapply generate_include_except_wordlists_inline; eauto. Qed.
+Print Assumptions C06_include_except_wordlists_is_typing_the_surviving_lines_partial.
+
+Theorem C06_include_except_wordlists_example :
+  exists pl cF cX,
+    parse_line all_pnames (trim_left is_blank $"##!> include-except words skip") = Ok pl /\ pl_type pl = LIncludeExcept /\ pl_pairs pl = None /\
+    good_file all_pnames 65536 ex6_fs (pl_file pl) cF /\ Forall2 (good_file all_pnames 65536 ex6_fs) (pl_excludes pl) [cX] /\
+    filter (not_excluded (excluded_lines all_pnames 65536 [cX])) (keep_last (text_lines all_pnames (scan_lines 65536 cF))) = [$"ls"; $"time"].
+Proof. exact include_except_wordlists_example. Qed.
+Print Assumptions C06_include_except_wordlists_example.
